@@ -17,11 +17,14 @@ pub struct Ref<'a> {
     /// measuring aid only: capture extension cut after this many plies (u32::MAX = the reference itself)
     pub qcap: u32,
     pub max_qply: u32,
+    /// measuring aid only: no check extension at or beyond this ply (i32::MAX = the reference itself)
+    pub xcap: i32,
+    pub max_ext_ply: i32,
 }
 
 impl<'a> Ref<'a> {
     pub fn new(h: &'a ZobristHasher, cap: u64) -> Ref<'a> {
-        Ref { h, nodes: 0, cap, capped: false, qcap: u32::MAX, max_qply: 0 }
+        Ref { h, nodes: 0, cap, capped: false, qcap: u32::MAX, max_qply: 0, xcap: i32::MAX, max_ext_ply: 0 }
     }
 
     fn quiesce(&mut self, board: &BoardState) -> i32 {
@@ -149,8 +152,11 @@ impl<'a> Ref<'a> {
         }
         table.add_board_to_draw_table(board);
         if depth == 0 {
-            if is_check(board, board.to_move) {
+            if ply < self.xcap && is_check(board, board.to_move) {
                 depth = 1;
+                if ply > self.max_ext_ply {
+                    self.max_ext_ply = ply;
+                }
             } else {
                 table.remove_board_from_draw_table(board);
                 return self.quiesce_ab(board, alpha, beta);
